@@ -15,7 +15,8 @@ def main(tier, args):
     with ThreadPoolExecutor(2) as ex:
         fs = ex.submit(vf.build, "C20/alarm_sweep_asan", [H], srcs, mode="asan", plain_srcs=STUB, harness_flags=["-Og", "-g0", "-DC20_ONLY_SWEEP"])
         ff = ex.submit(vf.build, "C20/alarm_fire_asan", [H], srcs, mode="asan", plain_srcs=STUB, harness_flags=["-Og", "-g0", "-DC20_ONLY_FIRE"])
-        sweep, firex = fs.result(), ff.result()
+        fc = ex.submit(vf.build, "C20/calendar_asan", [vf.VERIF + "/checks/C20/calendar_harness.cpp"], srcs, mode="asan", plain_srcs=STUB)
+        sweep, firex, calx = fs.result(), ff.result(), fc.result()
     quick = tier == "quick"
     depth, dl, budget = (6, 60, 85) if quick else (8, 1100, 1260)
     res = vf.Result(); log = open(vf.BUILD + "/C20/log.txt", "w")
@@ -24,6 +25,8 @@ def main(tier, args):
     cmds = []
     # firing histories first (the longest jobs), then the sweeps; ASan+UBSan build for everything (the week sweep runs 5*10^7 calls/s under ASan, -O2 is not needed)
     cmds += [("fire:" + c, [firex, "fire", c, str(depth)]) for c in FIRE]
+    # lane: three WorkdayAlarms on one WorkdayCalendar, calendar updates must re-arm every enabled alarm
+    cmds += [("calendar", [calx, "4" if quick else "6"])]
     cmds += [("weekly-full:%d" % i, [sweep, "sweep-weekly-full", str(i), "16", tier]) for i in range(16)]
     cmds += [("weekly-tz:%d" % i, [sweep, "sweep-weekly-tz", str(i), "16", tier]) for i in range(16)]
     cmds += [("cron:%d" % i, [sweep, "sweep-cron", str(i), "16", tier]) for i in range(16)]
@@ -42,7 +45,7 @@ def main(tier, args):
                    "delay >= wall distance. (2) firing: BFS over histories of {enable, disable, refresh, pass, skew monotonic +5 ms, wall +-1 h, advance to half/T-5ms/T/T+1s} "
                    "depth<=%d on %d weekly/one-shot/cron/workday configurations (targets 40/50/60/100/400 days ahead included) under virtual wall + monotonic clocks; state = full alarm + "
                    "timer + loop-timer record + model; oracle = one callback per matching instant, never two, none while disabled, one-shot once, armed delay (TimerEvent interval and "
-                   "loop timer record) >= wall distance at arming, armed target = earliest matching instant"
+                   "loop timer record) >= wall distance at arming, armed target = earliest matching instant. (3) calendar lane: BFS (depth 4, thorough 6) over enable/disable/refresh of three WorkdayAlarms sharing one WorkdayCalendar and updates of its special days / week mask: every enabled alarm must be armed for the earliest matching instant under the calendar in force"
                    % ("{1,23296,43200,86398} and 12 more values on a stride-7 grid" if quick else "every 10-minute value, every hour +-1 and 16 boundary values at every second", "seconds-of-day {0,1,43200,86398,86399} x 40 masks (all with <=2 or >=6 days set + 3 patterns)" if quick else "16 boundary seconds-of-day x all 128 masks", depth, len(FIRE)),
               assumptions=["instants within one week + 14 h of 2^32 are excluded; so are inputs whose local time now+tz is negative",
                            "a 'not found' answer is accepted beyond the implementation's search horizon (weekly 8 days, workday 367 days, cron 4 years)",
